@@ -89,7 +89,10 @@ def distinguishable_reactants(rsmi):
     return True
 
 
-CHARGE_CASES = ["[Fe+2]>>[Fe+3]", "C[O-]>>C[O]", "[Cu+].O>>[Cu+2].O", "[Na+].[Cl-]>>[Na]Cl", "CC(=O)[O-].[H+]>>CC(=O)O", "[NH4+]>>N"]
+CHARGE_CASES = ["[Fe+2]>>[Fe+3]", "C[O-]>>C[O]", "[Cu+].O>>[Cu+2].O", "[Na+].[Cl-]>>[Na]Cl", "CC(=O)[O-].[H+]>>CC(=O)O", "[NH4+]>>N",
+                # element-balanced, net charges of equal size and opposite sign / sign flips / multi-ion sums
+                "C[NH3+]>>[CH3-].N", "[Fe+2]>>[Fe-2]", "[Cl-]>>[Cl+]", "[Na+].[Cl-]>>[Na-].[Cl+]", "[Ca+2].[Cl-].[Cl-]>>[Ca]([Cl])[Cl]",
+                "[O-]C(=O)C([O-])=O.[H+]>>OC(=O)C([O-])=O", "[O-]C(=O)C([O-])=O.[H+]>>OC(=O)C(O)=O", "[NH4+].[OH-]>>N.O", "[NH4+].[OH-]>>[NH2-].[OH3+]"]
 
 
 def partly_unmapped(rsmi, rng):
